@@ -619,6 +619,9 @@ func TestC11(t *testing.T) {
 			kC11.One(ev, c11Case{N: n, Mode: "txnset", Subset: []int{0, 1, n / 3, n - 2, n - 1}, Salt: seedEnv % 1000})
 		}
 		kC11.Run(t, ev, perShard(pick(1500, 600000)))
+		for _, c := range c10SavedCases() {
+			kC11Dag.One(ev, c)
+		}
 		kC11Dag.Run(t, ev, perShard(pick(6000, 600000)))
 		ev.requireClasses("C11:subset-empty", "C11:subset-full", "C11:subset-singleton", "C11:subset-proper",
 			"C11:mode=filter", "C11:mode=txnset", "C11:n-not-power-of-two", "C11:dag-flags=1", "C11:dag-flags=2")
